@@ -262,6 +262,7 @@ def explore(
     max_paths: int = 10**9,
 ) -> Dict[str, Any]:
     """Run all shards of one harness over a process pool and merge the statistics."""
+    procs = int(os.environ.get("VERIF_PROCS", "0") or 0) or procs
     deadline = time.time() + budget_s
     every = max(1, len(shards) // 24)  # realise sample inputs in ~24 shards only
     tasks = [(modname, fname, fx, deadline, per_path_timeout, twin, max_samples if i % every == 0 else 0, stop_on_fail, max_paths)
